@@ -189,12 +189,17 @@ theorem isSetOf_dedupFirst (fields : List String)
 
 /-! ## the switches -/
 
-theorem run_switches (cap factor : Nat) (a : Act) :
-    ∀ s, ((run cap factor s a).st.flowAnalysisEnabled = s.flowAnalysisEnabled ∨
-          (run cap factor s a).st.flowAnalysisEnabled = true) ∧
-      ((run cap factor s a).st.isAnalysis = s.isAnalysis ∨ (run cap factor s a).st.isAnalysis = false) ∧
-      (run cap factor s a).st.predefined = s.predefined ∧
-      (run cap factor s a).st.dynamicParamsDepth = s.dynamicParamsDepth := by
+/-- every block leaves the switches, the depth counter and the statement stack as it found them,
+whatever its body does and however it ends - PROVIDED the `+= 1` / `-= 1` of `_avoid_recursions`
+are balanced (`Balanced`: same branch) -/
+theorem run_switches (c : Cfg) (hb : Balanced c.bracket) (a : Act) :
+    ∀ s, ((run c s a).st.flowAnalysisEnabled = s.flowAnalysisEnabled ∨
+          (run c s a).st.flowAnalysisEnabled = true) ∧
+      ((run c s a).st.isAnalysis = s.isAnalysis ∨ (run c s a).st.isAnalysis = false) ∧
+      (run c s a).st.predefined = s.predefined ∧
+      (run c s a).st.dynamicParamsDepth = s.dynamicParamsDepth ∧
+      (run c s a).st.pushed = s.pushed := by
+  obtain ⟨hpre, hblocked, hpair⟩ := hb
   induction a with
   | skip => intro s; simp [run]
   | raise => intro s; simp [run]
@@ -204,9 +209,9 @@ theorem run_switches (cap factor : Nat) (a : Act) :
     split
     · exact iha s
     · have h1 := iha s
-      have h2 := ihb (run cap factor s a).st
+      have h2 := ihb (run c s a).st
       simp only
-      refine ⟨?_, ?_, h2.2.2.1.trans h1.2.2.1, h2.2.2.2.trans h1.2.2.2⟩
+      refine ⟨?_, ?_, h2.2.2.1.trans h1.2.2.1, h2.2.2.2.1.trans h1.2.2.2.1, h2.2.2.2.2.trans h1.2.2.2.2⟩
       · rcases h2.1 with h | h
         · rcases h1.1 with h' | h'
           · exact Or.inl (h.trans h')
@@ -238,26 +243,59 @@ theorem run_switches (cap factor : Nat) (a : Act) :
     have := h.2.2.1
     simp only at this
     omega
-  | dynDepth b ih =>
+  | dynParam n b ih =>
     intro s
-    have h := ih { s with dynamicParamsDepth := s.dynamicParamsDepth + 1 }
     simp only [run]
-    refine ⟨h.1, h.2.1, h.2.2.1, ?_⟩
-    have := h.2.2.2
-    simp only at this
-    omega
+    split
+    · refine ⟨Or.inl rfl, Or.inl rfl, rfl, ?_, rfl⟩
+      simp only
+      omega
+    · have h := ih { s with pushed := s.pushed ++ [n],
+                            dynamicParamsDepth := s.dynamicParamsDepth + delta c.bracket "pre"
+                              + delta c.bracket "allowed" }
+      refine ⟨h.1, h.2.1, h.2.2.1, ?_, ?_⟩
+      · have := h.2.2.2.1
+        simp only at this ⊢
+        omega
+      · have := h.2.2.2.2
+        simp only at this ⊢
+        rw [this]
+        simp
+  | searchArgs n => intro s; simp [run]
 
-theorem run_default (cap factor : Nat) (a : Act) (s : QState) (h : s.switchesDefault) :
-    (run cap factor s a).st.switchesDefault := by
-  obtain ⟨h1, h2, h3, h4⟩ := run_switches cap factor a s
-  obtain ⟨d1, d2, d3, d4⟩ := h
-  refine ⟨?_, ?_, h3.trans d3, h4.trans d4⟩
+theorem run_default (c : Cfg) (hb : Balanced c.bracket) (a : Act) (s : QState) (h : s.switchesDefault) :
+    (run c s a).st.switchesDefault := by
+  obtain ⟨h1, h2, h3, h4, h5⟩ := run_switches c hb a s
+  obtain ⟨d1, d2, d3, d4, d5⟩ := h
+  refine ⟨?_, ?_, h3.trans d3, h4.trans d4, h5.trans d5⟩
   · rcases h1 with h | h
     · exact h.trans d1
     · exact h
   · rcases h2 with h | h
     · exact h.trans d2
     · exact h
+
+/-- `reset_recursion_limitations` touches no switch -/
+theorem reset_default (resets : List String) (s : QState) (h : s.switchesDefault) :
+    (reset resets s).switchesDefault := by
+  obtain ⟨d1, d2, d3, d4, d5⟩ := h
+  refine ⟨d1, d2, d3, d4, ?_⟩
+  simp only [reset]
+  split
+  · rfl
+  · exact d5
+
+/-- a search that runs while the counter is at most 1 looks at every call site up to
+`MAX_PARAM_SEARCHES` -/
+theorem searchLoop_depth_one (maxS : Nat) : ∀ r i, i + r ≤ maxS →
+    searchLoop maxS 1 r i = List.replicate r true := by
+  intro r
+  induction r with
+  | zero => intro i _; simp [searchLoop]
+  | succ r ih =>
+    intro i h
+    simp only [searchLoop, List.replicate_succ]
+    rw [if_neg (by omega), ih (i + 1) (by omega)]
 
 /-! ## memoised evaluation on acyclic graphs does not depend on what was asked before -/
 
